@@ -302,6 +302,16 @@ fn main() {
                 }
             }
         });
+        // circles of 600..1400 px (seeded `C06-13`: row widths from an integer square root whose Newton
+        // iteration is capped - exact for every drawn diameter below 732)
+        let nc = run.tier(32u64, 800u64);
+        run.generate("large-circles", nc, false, 0.25, |ctx, idx, rng| {
+            const D: [u32; 8] = [731, 732, 752, 760, 924, 948, 1001, 1024];
+            let d = if idx < 8 { D[idx as usize] } else { rng.u32r(600, 1400) };
+            let st = StyleD { fill: if rng.chance(2, 3) { Some(1) } else { None }, stroke: if rng.chance(2, 3) { Some(2) } else { None }, width: *rng.pick(&[0u32, 1, 2, 5, 40]), align: rng.below(3) as u8, dotted: false };
+            check(ctx, Circle::new(pos(rng), d), st);
+            ctx.count("circles_of_600_px_and_more", 1);
+        });
         // one side beyond 16 bits (flat or tall shapes: the point count stays small): squared half-widths
         // pass 2^32 (seeded `C06-12`: a per-row limit of the ellipse stored in u32)
         let nh = run.tier(36u64, 600u64);
